@@ -35,11 +35,11 @@ Proof.
 Qed.
 
 (* the fragments of one unit: the first, and only the first, is a partition head *)
-Theorem h264_fua_heads nri ty fs cs : nri = 0 \/ nri = 32 \/ nri = 64 \/ nri = 96 -> 1 <= ty <= 23 ->
+Theorem h264_fua_heads nri ty fs cs : nri = 0 \/ nri = 32 \/ nri = 64 \/ nri = 96 \/ nri = 128 \/ nri = 160 \/ nri = 192 \/ nri = 224 -> 1 <= ty <= 23 ->
   fua_rel (Z.lor 28 nri) ty true fs cs -> map head264 fs = true :: repeat false (length fs - 1).
 Proof.
   intros Hn Ht Hrel. apply (fua_heads (Z.lor 28 nri) ty true fs cs); [|lia|exact Hrel].
-  destruct Hn as [-> | [-> | [-> | ->]]]; reflexivity.
+  destruct Hn as [-> | [-> | [-> | [-> | [-> | [-> | [-> | ->]]]]]]]; reflexivity.
 Qed.
 
 (* a single NAL unit packet, and an aggregation packet (STAP-A, type 24), is a head *)
